@@ -929,8 +929,6 @@ def _cost_integral(cost, s, e):
     """(exact integral, trapezoid) of the cost function over [s,e]"""
     if cost is None:
         return 0, 0
-    if cost["kind"] == "general":
-        cost = cost["as"]
     k = cost["kind"]
     if k == "const":
         v = cost["value"] * (e - s)
